@@ -402,7 +402,42 @@ theorem vmCompare_ok (tbl : Table α) (hc : ConvComplete tbl) (op : CmpOp) (x y 
 its signature, under signatures and global types that the current ones include -/
 def FnsOK (tbl : Table α) (fns : List (FnDef α)) (S : List FnSig) (Γ : List GTy) : Prop :=
   ∀ (f : Nat) (sig : FnSig), S[f]? = some sig → ∃ fd, fns[f]? = some fd ∧ ∀ ps r, sig.inst ps r →
-    fd.arity = ps.length ∧ r.isVal = true ∧ ∃ S₁ Γ₁, Incl S₁ S ∧ Incl Γ₁ Γ ∧ HasTy tbl S₁ Γ₁ ps fd.body r
+    fd.arity = ps.length ∧ r.isVal = true ∧ ∃ S₁ Γ₁ ws, Incl S₁ S ∧ Incl Γ₁ Γ ∧
+      WheresOK tbl S₁ Γ₁ ps fd.wheres ws ∧ HasTy tbl S₁ Γ₁ (ps ++ ws) fd.body r
+
+theorem whereStep_error (ev : List (PVal α) → PExpr α → Except PErr (PVal α)) (err : PErr) (l : List (PExpr α)) :
+    l.foldl (whereStep ev) (.error err) = .error err := by
+  induction l with
+  | nil => rfl
+  | cons x xs ih => simp only [List.foldl_cons, whereStep]; exact ih
+
+/-- the `where` clauses of a call: if the evaluator `ev` is sound for typed expressions, running the clauses
+from locals that agree with `L` ends with locals that agree with `L ++ ws`, or badly -/
+theorem wheres_sound (tbl : Table α) (ev : List (PVal α) → PExpr α → Except PErr (PVal α))
+    (S₁ : List FnSig) (Γ₁ : List GTy)
+    (hev : ∀ (L : List PTy) (loc : List (PVal α)) (w : PExpr α) (t : PTy), EnvOK tbl loc L →
+      HasTy tbl S₁ Γ₁ L w t → t.isVal = true → Sound tbl (ev loc w) t)
+    (L : List PTy) (wexprs : List (PExpr α)) (wts : List PTy) (hwo : WheresOK tbl S₁ Γ₁ L wexprs wts) :
+    ∀ loc₀, EnvOK tbl loc₀ L →
+      (∃ loc', wexprs.foldl (whereStep ev) (.ok loc₀) = .ok loc' ∧ EnvOK tbl loc' (L ++ wts)) ∨
+      Bad (wexprs.foldl (whereStep ev) (.ok loc₀)) := by
+  induction hwo with
+  | nil L => intro loc₀ h0; left; exact ⟨loc₀, rfl, by simpa using h0⟩
+  | @cons L w tw rest wts' hv hwt _ ihw =>
+    intro loc₀ h0
+    simp only [List.foldl_cons]
+    rcases hev L loc₀ w tw h0 hwt hv with ⟨v, hv', hvok⟩ | he
+    · have hstep : whereStep ev (.ok loc₀) w = .ok (loc₀ ++ [v]) := by simp only [whereStep, hv']
+      rw [hstep]
+      rcases ihw (loc₀ ++ [v]) (envOK_snoc tbl loc₀ L h0 v tw hvok) with ⟨loc', hl', hok'⟩ | hb
+      · left; exact ⟨loc', hl', by simpa [List.append_assoc] using hok'⟩
+      · right; exact hb
+    · right
+      rcases he with h | h
+      · have hstep : whereStep ev (.ok loc₀) w = .error (.q .divZero) := by simp only [whereStep, h]
+        rw [hstep, whereStep_error]; left; rfl
+      · have hstep : whereStep ev (.ok loc₀) w = .error .outOfFuel := by simp only [whereStep, h]
+        rw [hstep, whereStep_error]; right; rfl
 
 /-- **Soundness for expressions of the program fragment**, for every fuel: in a session whose globals agree
 with their types and whose functions were checked (`FnsOK`), an expression typed under included contexts
@@ -597,10 +632,16 @@ theorem expr_soundness (tbl : Table α) (hc : ConvComplete tbl) (fns : List (FnD
         rcases ihA S₀ Γ₀ L loc args ps hS hΓ hloc hargs with ⟨vs, hvs, hvsok⟩ | he
         · rw [hvs]
           obtain ⟨fd, hfd, hall⟩ := hfns f sig (hS f sig hsig)
-          obtain ⟨har, hret, S₁, Γ₁, hS₁, hΓ₁, hbody⟩ := hall ps t hinst
+          obtain ⟨har, hret, S₁, Γ₁, ws, hS₁, hΓ₁, hwh, hbody⟩ := hall ps t hinst
           have hlen : vs.length = fd.arity := by rw [har]; exact envOK_length tbl vs ps hvsok
           simp only [hfd, hlen, if_true]
-          exact ihE S₁ Γ₁ ps vs fd.body t hS₁ hΓ₁ hvsok hbody hret
+          -- the `where` clauses: every value agrees with its type, or the run ends badly
+          have hw := wheres_sound tbl (fun l w => evalP tbl fns glob fuel l w) S₁ Γ₁
+            (fun L loc₀ w tw h0 hwt hv => ihE S₁ Γ₁ L loc₀ w tw hS₁ hΓ₁ h0 hwt hv)
+          rcases hw ps fd.wheres ws hwh vs hvsok with ⟨loc', hl', hok'⟩ | hb
+          · rw [hl']
+            exact ihE S₁ Γ₁ (ps ++ ws) loc' fd.body t hS₁ hΓ₁ hok' hbody hret
+          · rcases hb with h | h <;> (rw [h]; right; unfold Bad; simp)
         · right; rcases he with h | h <;> (rw [h]; unfold Bad; simp)
       | noarg => simp [PTy.isVal] at hval
       | arg _ _ _ => simp [PTy.isVal] at hval
@@ -661,12 +702,13 @@ theorem fnsOK_grow_glob (tbl : Table α) {fns : List (FnDef α)} {S : List FnSig
   intro f sig hs
   obtain ⟨fd, hfd, hall⟩ := h f sig hs
   refine ⟨fd, hfd, fun ps r hi => ?_⟩
-  obtain ⟨har, hret, S₁, Γ₁, hS₁, hΓ₁, hb⟩ := hall ps r hi
-  exact ⟨har, hret, S₁, Γ₁, hS₁, hΓ₁.trans (Incl.append Γ [T]), hb⟩
+  obtain ⟨har, hret, S₁, Γ₁, ws, hS₁, hΓ₁, hw, hb⟩ := hall ps r hi
+  exact ⟨har, hret, S₁, Γ₁, ws, hS₁, hΓ₁.trans (Incl.append Γ [T]), hw, hb⟩
 
 theorem fnsOK_add_fn (tbl : Table α) {fns : List (FnDef α)} {S : List FnSig} {Γ : List GTy} (d : FnDef α)
     (sig : FnSig) (hlen : fns.length = S.length)
-    (hb : ∀ ps r, sig.inst ps r → r.isVal = true ∧ d.arity = ps.length ∧ HasTy tbl (S ++ [sig]) Γ ps d.body r)
+    (hb : ∀ ps r, sig.inst ps r → r.isVal = true ∧ d.arity = ps.length ∧
+      ∃ ws, WheresOK tbl (S ++ [sig]) Γ ps d.wheres ws ∧ HasTy tbl (S ++ [sig]) Γ (ps ++ ws) d.body r)
     (h : FnsOK tbl fns S Γ) :
     FnsOK tbl (fns ++ [d]) (S ++ [sig]) Γ := by
   intro f sg hs
@@ -675,8 +717,8 @@ theorem fnsOK_add_fn (tbl : Table α) {fns : List (FnDef α)} {S : List FnSig} {
     obtain ⟨fd, hfd, hall⟩ := h f sg hs
     refine ⟨fd, ?_, fun ps r hi => ?_⟩
     · rw [List.getElem?_append_left (by omega)]; exact hfd
-    · obtain ⟨har', hret', S₁, Γ₁, hS₁, hΓ₁, hb'⟩ := hall ps r hi
-      exact ⟨har', hret', S₁, Γ₁, hS₁.trans (Incl.append S [sig]), hΓ₁, hb'⟩
+    · obtain ⟨har', hret', S₁, Γ₁, ws, hS₁, hΓ₁, hw', hb'⟩ := hall ps r hi
+      exact ⟨har', hret', S₁, Γ₁, ws, hS₁.trans (Incl.append S [sig]), hΓ₁, hw', hb'⟩
   · have hfe : f = S.length := by
       rcases Nat.lt_or_ge f (S.length + 1) with h' | h'
       · omega
@@ -685,8 +727,8 @@ theorem fnsOK_add_fn (tbl : Table α) {fns : List (FnDef α)} {S : List FnSig} {
     simp at hs; subst hs
     refine ⟨d, ?_, fun ps r hi => ?_⟩
     · rw [← hlen]; simp
-    · obtain ⟨hret, har, hbody⟩ := hb ps r hi
-      exact ⟨har, hret, S ++ [sig], Γ, Incl.refl _, Incl.refl _, hbody⟩
+    · obtain ⟨hret, har, ws, hw, hbody⟩ := hb ps r hi
+      exact ⟨har, hret, S ++ [sig], Γ, ws, Incl.refl _, Incl.refl _, hw, hbody⟩
 
 /-- **Soundness for programs** (sequences of `let` and `fn` definitions), for every fuel: running a well-typed
 program in a session that satisfies the invariant either fails with a division by zero (or runs out of fuel), or
@@ -747,14 +789,14 @@ recursive function (one instance per dimension), comparisons, a conditional and 
 dimensions is typed by `ProgOK` (over any table), so the hypotheses of `program_soundness` are satisfiable:
 
     let z = 0
-    fn f(x) = if x <= z then x else f(x + z)        -- fn f<D: Dim>(x: D) -> D
+    fn f(x) = if x <= z then x else f(y) where y = x + z      -- fn f<D: Dim>(x: D) -> D
     let a = f(3)                                     -- at Scalar
     let b = f(1 u)                                   -- at the dimension of the unit `u`
 -/
 example (tbl : Table α) (v : α) (u : Factor) :
     ProgOK tbl [] []
       [.letv (.num zero),
-       .fn ⟨1, .ite (.cmp .le (.loc 0) (.var 0)) (.loc 0) (.call 0 (.arg (.add (.loc 0) (.var 0)) .noarg))⟩,
+       .fn ⟨1, [.add (.loc 0) (.var 0)], .ite (.cmp .le (.loc 0) (.var 0)) (.loc 0) (.call 0 (.arg (.loc 1) .noarg))⟩,
        .letv (.call 0 (.arg (.num v) .noarg)),
        .letv (.call 0 (.arg (.unit u) .noarg))]
       [sigIdDim]
@@ -767,10 +809,10 @@ example (tbl : Table α) (v : α) (u : Factor) :
   · rintro t ⟨d, rfl⟩
     exact ⟨rfl, .num zero d (Or.inr hz)⟩
   · rintro ps r ⟨d, rfl, rfl⟩
-    refine ⟨rfl, rfl, ?_⟩
-    refine .ite rfl (.cmp .le (.loc 0 _ rfl) (.var 0 _ (.dim d) rfl ⟨d, rfl⟩)) (.loc 0 _ rfl) ?_
-    exact .call sigIdDim rfl [.dim d] (.dim d) ⟨d, rfl, rfl⟩
-      (.arg rfl (.add (.loc 0 _ rfl) (.var 0 _ (.dim d) rfl ⟨d, rfl⟩)) .noarg)
+    refine ⟨rfl, rfl, [.dim d], ?_, ?_⟩
+    · exact .cons rfl (.add (.loc 0 _ rfl) (.var 0 _ (.dim d) rfl ⟨d, rfl⟩)) (.nil _)
+    · refine .ite rfl (.cmp .le (.loc 0 _ rfl) (.var 0 _ (.dim d) rfl ⟨d, rfl⟩)) (.loc 0 _ rfl) ?_
+      exact .call sigIdDim rfl [.dim d] (.dim d) ⟨d, rfl, rfl⟩ (.arg rfl (.loc 1 _ rfl) .noarg)
   · rintro t rfl
     exact ⟨rfl, .call sigIdDim rfl [.dim (fun _ => 0)] _ ⟨_, rfl, rfl⟩ (.arg rfl (.num v _ (Or.inl fun _ => rfl)) .noarg)⟩
   · rintro t rfl
